@@ -755,7 +755,13 @@ func (l *Loader) mergeResult(fetchItem *FetchItem, res *result, items []*astjson
 			// we don't consider it as an error. Note: it is not compliant with graphql spec.
 			if hasErrors {
 				if l.validateRequiredExternalFields && res.postProcessing.SelectResponseDataPath != nil {
-					taintedIndices = getTaintedIndices(res.taintInfo(fetchItem), res.errorPathRoot(), responseData, responseErrors)
+					taintData := responseData
+					// A single entity fetch selects the entity itself (["data","_entities","0"]),
+					// while error paths are relative to the "_entities" array: look them up there.
+					if p := res.postProcessing.SelectResponseDataPath; res.multi == nil && len(p) > 1 && p[len(p)-1] == "0" {
+						taintData = response.Get(p[:len(p)-1]...)
+					}
+					taintedIndices = getTaintedIndices(res.taintInfo(fetchItem), res.errorPathRoot(), taintData, responseErrors)
 				}
 				if len(taintedIndices) > 0 {
 					// Override errors with generic error about missing deps.
